@@ -21,6 +21,13 @@ R32d live data supersedes stored data: a route that lists both the registered (l
      `not in` test must be derived from the unfiltered live collection (ids only), never from the list that already
      passed the access filter. Otherwise a unit the user may not see (live required roles) falls through to its stored
      row and is judged by the roles it had when it last disconnected.
+R32e unknown is not open: has_access treats an empty set of required roles as "open to everyone". The engine data of a unit is created at
+     registration, before the engine has reported its roles (UodInfoMsg), with an empty set. So (1) EngineData carries a flag that the
+     roles are known, initialised False and set only where the reported roles are stored (FromEngine.uod_info_changed); (2) has_access
+     denies - before it looks at the set - while that flag is false; (3) RecentEngineRepository.store_recent_engine overwrites the stored
+     roles of an existing row only when they are known. Otherwise every unit is listed, readable and commandable by a user without any
+     role between each (re)connect and its UodInfoMsg - for the whole session when that message is rejected - and a session that ends
+     before it erases the stored roles of the offline unit.
 """
 from __future__ import annotations
 
@@ -126,7 +133,7 @@ def _map_access(node: ast.AST) -> bool:
     return any(isinstance(x, ast.Attribute) and x.attr == "_engine_data_map" for x in ast.walk(node))
 
 
-def run(ctx) -> None:
+def _run_main(ctx) -> None:
     prog, res = ctx.prog, ctx.res
     for r, d in [("R32a", "single-object sinks dominated by a verified role check"),
                  ("R32b", "collection sinks filtered per element"), ("R32c", "has_access shape")]:
@@ -149,6 +156,8 @@ def run(ctx) -> None:
     params = [a.arg for a in ha.node.args.args]
     defs = local_single_defs(ha)
     ok = False
+    # returns of the constant False only deny; the decision proper is the one remaining return
+    rets = [r for r in rets if not (isinstance(r.value, ast.Constant) and r.value.value is False)]
     if len(rets) == 1 and isinstance(rets[0].value, ast.BoolOp) and isinstance(rets[0].value.op, ast.Or) and len(params) == 2:
         vals = [norm(v) for v in rets[0].value.values]
         req = [n for n, v in defs.items() if "required_roles" in norm(v) and params[0] in norm(v)]
@@ -400,3 +409,79 @@ def _collection_filtered(ctx, f: FuncInfo, call: ast.Call):
             return "no filtered loop over the collection"
         return True if uses_ok else "loop body uses an element before/without has_access"
     return "unrecognised consumption of the collection"
+
+
+def _r32e(ctx) -> None:
+    from ..model import AnchorError, norm, walk_no_nested
+    from ..util import cfg_of, assigned_attrs
+    from ..cfg import facts_at
+    import ast
+    prog = ctx.prog
+    ctx.rule("R32e", "a unit whose required roles have not been reported yet is not open to everyone")
+    ed = prog.cls("openpectus.aggregator.models:EngineData")
+    init = ed.methods["__init__"]
+    ha = prog.func("openpectus.aggregator.routers.auth:has_access")
+    ctx.analysed(ha)
+    gh = cfg_of(ha)
+    # the flag: a boolean attribute of EngineData initialised False that has_access tests
+    flags = {t.attr for t, v, st in assigned_attrs(init.node) if isinstance(v, ast.Constant) and v.value is False and isinstance(t.value, ast.Name)}
+    tested = {x.attr for x in ast.walk(ha.node) if isinstance(x, ast.Attribute) and x.attr in flags}
+    inst = "has_access denies while the unit's required roles are not known"
+    empty_open = any(isinstance(x, ast.Compare) and "len(" in norm(x) and norm(x).endswith("== 0") for x in ast.walk(ha.node))
+    if not empty_open:
+        ctx.ok("R32e", inst + " (an empty role set is not treated as open)", trivial=True)
+        return
+    flag = next(iter(sorted(tested)), None)
+    ok1 = False
+    if flag is not None:
+        for n in gh.nodes:
+            if n.kind == "stmt" and isinstance(n.ast, ast.Return) and isinstance(n.ast.value, ast.Constant) and n.ast.value.value is False:
+                if any(a.endswith("." + flag) and not pol for a, pol in facts_at(gh, n)):
+                    # ... and it comes before the emptiness test
+                    empt = [m for m in gh.nodes if m.ast is not None and "len(" in norm(m.ast) and "== 0" in norm(m.ast)]
+                    if all(gh.search([n.id], lambda y, m=m: y.id == m.id, follow_exc=False) is None for m in empt):
+                        ok1 = True
+    if ok1:
+        ctx.ok("R32e", inst)
+    else:
+        ctx.fail("R32e", ha, ha.node, inst, "EngineData starts with required_roles = set() and has_access reads an empty set as 'open': between "
+                 "registration and the engine's UodInfoMsg (every connect and reconnect; for the whole session if that message is rejected) a "
+                 "user without any role sees the unit listed, gets GET unit 200, reads the plot log of the restored run, and execute_command, "
+                 "POST method, force_line and cancel_line reach the engine")
+    # (1) the flag is set only together with the reported roles
+    inst = "the roles-known flag is set only where the reported roles are stored"
+    if flag is None:
+        ctx.fail("R32e", init, init.node, inst, "EngineData has no such flag")
+    else:
+        setters = []
+        for fn in prog.iter_functions():
+            if "/test" in fn.module.path or ".test." in fn.module.name:
+                continue
+            for t, v, st in assigned_attrs(fn.node):
+                if t.attr == flag and isinstance(v, ast.Constant) and v.value is True:
+                    setters.append((fn, st))
+        bad = [(fn, st) for fn, st in setters if not any(t.attr == "required_roles" for t, v, s_ in assigned_attrs(fn.node))]
+        if setters and not bad:
+            ctx.ok("R32e", inst, {"rule": "R32e", "set_in": sorted({fn.short for fn, _ in setters})})
+        elif not setters:
+            ctx.fail("R32e", init, init.node, inst, f"`{flag}` is never set: every unit stays closed")
+        else:
+            ctx.fail("R32e", bad[0][0], bad[0][1], inst, f"`{flag}` is set in a function that does not store reported roles")
+    # (3) stored roles are not erased by a session that never learned them
+    sre = prog.func("openpectus.aggregator.data.repository:RecentEngineRepository.store_recent_engine")
+    ctx.analysed(sre)
+    gs = cfg_of(sre)
+    writes = [n for n in gs.nodes if n.kind == "stmt" and any(t.attr == "required_roles" for t, v, st in assigned_attrs(n.ast))]
+    if not writes:
+        raise AnchorError("store_recent_engine: write of required_roles not found")
+    inst = "store_recent_engine keeps the stored roles of an existing row when the session never learned them"
+    if flag is not None and all(any(flag in norm(e) for e, pol in gs.conditions_at(w)) for w in writes):
+        ctx.ok("R32e", inst)
+    else:
+        ctx.fail("R32e", sre, writes[0].ast, inst, "the stored roles are overwritten with the (empty) roles of a session that ended before the engine's "
+                 "UodInfoMsg: the offline unit (name, location, last seen) is then listed to everyone for up to 30 days")
+
+
+def run(ctx) -> None:
+    _run_main(ctx)
+    _r32e(ctx)
